@@ -1,4 +1,6 @@
 """C08 — an address or public key maps to exactly its standard scriptPubKey; anything else is refused."""
+import hashlib
+
 from hypothesis import strategies as st
 
 from vf import gen
@@ -139,6 +141,20 @@ def check_negative(case):
     exp = classify(data)
     f = Fails()
     cls = ["nt:" + kind]
+    if hashlib.sha256(data).digest()[0] & 1:
+        # history: the same bytes first go through the library's other readers of such input (BIP173-only segwit
+        # decoding, the generic Bech32 decoder with either constant, Base58Check, the SEC1 reader); whatever those
+        # remember must not decide what scriptpubkey() then says
+        import bits
+        import bits.base58
+        from bits.bips import bip173
+
+        cls.append("nt:after-other-readers")
+        attempt(bits.decode_segwit_addr, data, False)
+        for const in (1, 0x2BC830A3):
+            attempt(bip173.decode_bech32_string, data, constant=const)
+        attempt(bits.base58.base58check_decode, data)
+        attempt(bits.point, data)
     got = attempt(bits.script.scriptpubkey, data)
     if exp is None:
         cls.append("expect-refuse")
@@ -202,7 +218,7 @@ def negative_cases(draw):
         body = draw(st.sampled_from([b"", b""]) | st.integers(0, 255).filter(lambda v: v not in (0x00, 0x6F, 0x05, 0xC4)).map(lambda v: bytes([v])))
         return {"kind": kind, "data": rb58.check_encode(body).hex()}
     if kind == "raw":
-        return {"kind": kind, "data": draw(st.binary(max_size=100)).hex()}
+        return {"kind": kind, "data": draw(gen.sized_binary(100)).hex()}
     if kind in ("mut-b58", "unknown-b58-version", "b58-no-checksum"):
         payload = draw(st.binary(min_size=20, max_size=20))
         ver = draw(st.sampled_from([0x00, 0x6F, 0x05, 0xC4]))
